@@ -44,7 +44,7 @@ type Val struct {
 }
 
 type Term struct {
-	K    string  `json:"k"` // normal break continue return retval delay bind bindrecv combine for while loop
+	K    string  `json:"k"` // normal break continue return retval delay bind bindrecv combine for while loop if (= a thunk choosing between A and B by Cond)
 	Val  *Val    `json:"val,omitempty"`
 	S    *Script `json:"s,omitempty"`
 	Cond *Cond   `json:"cond,omitempty"`
@@ -110,6 +110,8 @@ func (t *Term) String() string {
 		return "while[" + sc(t.Cond) + "](" + t.A.String() + ")"
 	case "loop":
 		return "loop(" + t.A.String() + ")"
+	case "if":
+		return "if[" + sc(t.Cond) + "](" + t.A.String() + ", " + t.B.String() + ")"
 	}
 	return "?" + t.K
 }
@@ -282,6 +284,14 @@ func (e *env) build(t *Term) seq.Seq[int] {
 		return seq.While(func() bool { return e.cond(t.Cond) }, e.build(t.A))
 	case "loop":
 		return seq.Loop(e.build(t.A))
+	case "if":
+		// what `if c { ..A.. } else { ..B.. }` looks like with the API: a thunk that picks one of two sequences
+		return seq.Delay(func() seq.Seq[int] {
+			if e.cond(t.Cond) {
+				return e.build(t.A)
+			}
+			return e.build(t.B)
+		})
 	}
 	panic("bad term kind " + t.K)
 }
@@ -339,6 +349,11 @@ func (e *env) rrun(r *rterm, y func(int) int) (sig, int) {
 	case "delay":
 		e.script("d", t.S)
 		return e.rrun(e.rbuild(t.A), y)
+	case "if":
+		if e.cond(t.Cond) {
+			return e.rrun(e.rbuild(t.A), y)
+		}
+		return e.rrun(e.rbuild(t.B), y)
 	case "bind":
 		e.yields++
 		y(r.val)
